@@ -111,7 +111,111 @@ func (m *M) deepEq(a, b Value, t types.Type, emptyEqNil bool, depth int) *smt.Te
 	return nil
 }
 
+// deepDerive: apimachinery's Equalities.DeepDerivative over the engine's value model: like deep equality, except that
+// "unset" parts of a (nil pointers / interfaces, nil or empty slices and maps, empty strings) are ignored, a slice of a
+// only has to match a prefix of b, a map of a only its own keys.
+func (m *M) deepDerive(a, b Value, t types.Type, depth int) *smt.Term {
+	if depth > 40 {
+		abortf("DeepDerivative: recursion too deep (cyclic value?)")
+	}
+	switch u := under(t).(type) {
+	case *types.Basic:
+		if sa, ok := a.(StrV); ok {
+			return smt.Or(smt.Eq(m.strLen(sa), smt.BVC(64, 0)), m.valueEq(a, b, t))
+		}
+		return m.valueEq(a, b, t)
+	case *types.Pointer:
+		x, y := a.(PtrV), b.(PtrV)
+		if x.Obj == 0 {
+			return smt.True
+		}
+		if y.Obj == 0 {
+			return smt.False
+		}
+		return m.deepDerive(m.st.load(x), m.st.load(y), u.Elem(), depth+1)
+	case *types.Struct:
+		x, y := a.(*StructV), b.(*StructV)
+		var cs []*smt.Term
+		for i := 0; i < u.NumFields(); i++ {
+			cs = append(cs, m.deepDerive(x.F[i], y.F[i], u.Field(i).Type(), depth+1))
+		}
+		return smt.And(cs...)
+	case *types.Array:
+		x, y := a.(*ArrayV), b.(*ArrayV)
+		var cs []*smt.Term
+		for i := range x.E {
+			cs = append(cs, m.deepDerive(x.E[i], y.E[i], u.Elem(), depth+1))
+		}
+		return smt.And(cs...)
+	case *types.Slice:
+		x, y := a.(SliceV), b.(SliceV)
+		if x.Nil || x.Len == 0 {
+			return smt.True
+		}
+		if x.Len > y.Len {
+			return smt.False
+		}
+		ex, ey := m.sliceElems(x), m.sliceElems(y)
+		var cs []*smt.Term
+		for i := range ex {
+			cs = append(cs, m.deepDerive(ex[i], ey[i], u.Elem(), depth+1))
+		}
+		return smt.And(cs...)
+	case *types.Map:
+		x, y := a.(MapV), b.(MapV)
+		var dx, dy []MapEntry
+		if x.Obj != 0 {
+			dx = m.st.Heap[x.Obj].(*MapData).E
+		}
+		if y.Obj != 0 {
+			dy = m.st.Heap[y.Obj].(*MapData).E
+		}
+		if len(dx) == 0 {
+			return smt.True
+		}
+		if len(dx) > len(dy) {
+			return smt.False
+		}
+		var cs []*smt.Term
+		for _, e := range dx {
+			var alts []*smt.Term
+			for _, f := range dy {
+				alts = append(alts, smt.And(m.valueEq(e.K, f.K, u.Key()), m.deepDerive(e.V, f.V, u.Elem(), depth+1)))
+			}
+			cs = append(cs, smt.Or(alts...))
+		}
+		return smt.And(cs...)
+	case *types.Interface:
+		x, y := a.(IfaceV), b.(IfaceV)
+		if x.T == nil {
+			return smt.True
+		}
+		if y.T == nil || !types.Identical(x.T, y.T) {
+			return smt.False
+		}
+		return m.deepDerive(x.V, y.V, x.T, depth+1)
+	case *types.Signature:
+		x, y := a.(FuncV), b.(FuncV)
+		return smt.BoolC(x.IsNil() && y.IsNil())
+	case *types.Chan:
+		return smt.BoolC(a.(ChanV) == b.(ChanV))
+	}
+	abortf("DeepDerivative: unsupported type %v", t)
+	return nil
+}
+
 func init() {
+	reg("(k8s.io/apimachinery/third_party/forked/golang/reflect.Equalities).DeepDerivative", func(m *M, fn *ssa.Function, a []Value, r ssa.Value) Value {
+		x, y := a[1].(IfaceV), a[2].(IfaceV)
+		if x.T == nil {
+			return smt.True
+		}
+		if y.T == nil || !types.Identical(x.T, y.T) {
+			return smt.False
+		}
+		m.ex.noteAssumption("equality.Semantic.DeepDerivative = structural derivative (unset parts of the first argument ignored); no custom equalities occur in the types compared")
+		return m.deepDerive(x.V, y.V, x.T, 0)
+	})
 	reg("reflect.DeepEqual", func(m *M, fn *ssa.Function, a []Value, r ssa.Value) Value {
 		x, y := a[0].(IfaceV), a[1].(IfaceV)
 		if x.T == nil || y.T == nil {
